@@ -31,8 +31,8 @@ def build_history(rnd):
     for i in range(n):
         t = rnd.choices(['or', 'and', 'defense', 'exist'], [4, 6, 2, 1])[0]
         do({'k': 'add_node', 'name': f's{i}', 'asset': rnd.choice(['A', 'B', None]), 'type': t,
-            'viable': rnd.random() < 0.8, 'necessary': rnd.random() < 0.7, 'defOne': rnd.random() < 0.5,
-            'suppress': rnd.random() < 0.3, 'id': None})
+            'viable': rnd.random() < 0.8, 'necessary': rnd.random() < 0.7, 'defOne': (d1 := rnd.random() < 0.5),
+            'suppress': (sp := rnd.random() < 0.3), 'tags': ['suppress'] if sp else [], 'id': None, **({'defense': '1.0' if d1 else '0.5'} if t == 'defense' else {})})
     dens = rnd.choice([1.0, 2.0, 3.0]) / n
     for p in range(n):
         for c in range(n):
